@@ -29,7 +29,7 @@ import common as C
 import progs
 import ir2print as P
 
-EXTRA_MODELS = [("scala", "printcorr_scala")]
+EXTRA_MODELS = [("scala", "printcorr_scala"), ("java", "printcorr_java")]
 OPTS = {"cast_numbers": False}
 
 
